@@ -33,6 +33,18 @@ CLAIMS = {
  'C14': dict(tech="TLA+ spec with scales (Nlp) evaluated by TLC; scenarios replayed into rockit",
              text="for scale assignments on states, controls, algebraics, variables, state derivatives and constraints: d(physical)/d(solver variable) equals the declared scale for every ingredient, user rows and dynamics rows equal the physical residual/slack divided by the scale, objective, physical starting point (with guesses) and read-backs are those of the unscaled problem",
              ref="DESIGN.md section 4 C14"),
+ 'C08': dict(tech="TLA+ spec (dense output of Schemes / Lagrange interpolant of collocation, Nlp!PredictRefine, PredictSampler) evaluated by TLC; scenarios replayed into rockit at dynamically feasible probes",
+             text="at dynamically feasible probes built by the specification (node states = propagated states), refined samples (refine 1..4/7) of states, compound expressions and time, and sampler(gist, t) at interior times, step boundaries and the end point, are predicted exactly from the step polynomials (rk quartic, Euler line, collocation interpolant for radau 1,2 / legendre 1) on uniform and non-uniform grids; stride relations to the unrefined integrator and control grids are part of the same comparison",
+             ref="DESIGN.md section 4 C08"),
+ 'C15': dict(tech="TLC model checking of the Bernstein convex-hull lemma (MC_Bernstein.tla) + exact prediction of the inf rows (Bernstein coefficients of the composed step polynomial) replayed into rockit",
+             text="TLC predicts, per integrator step, the Bernstein coefficients of e(x(dt_k*tau)) for linear, quadratic, product and inf_der constraints with the step's own length on uniform, geometric, function and free grids, and the NLP rows must equal them; MC_Bernstein checks on 4056 polynomials up to degree 8 that min/max Bernstein coefficients enclose the polynomial on [0,1] and are stable under degree elevation, which makes the rows sufficient; a scheme without dense output must be rejected (fault inf_no_guarantee)",
+             ref="DESIGN.md section 4 C15"),
+ 'C16': dict(tech="TLA+ symbolic differentiation of the AST (Expr!Der) evaluated by TLC + invariant DerIsChainRule; replayed against ocp.der",
+             text="for right-hand sides R1..R5 x expressions (polynomial in states, parameters and explicit time) x rational points TLC computes de/dt + grad e . f symbolically and checks it against difference quotients along Euler steps (O(h) bound for two step sizes); ocp.der(e) is evaluated at the same points and compared; control chains of order 1..3 walk down to the piecewise-constant control and one more derivative raises",
+             ref="DESIGN.md section 4 C16"),
+ 'C20': dict(tech="TLC model checking of Faults.tla (solver only sees well-posed declarations) + TLC-enumerated fault scenarios executed on rockit with a solver spy",
+             text="Faults.tla enumerates 23 specification faults x applicable methods {MS, SS, DC, SplineMethod} x {OCP, sub-stage} x position {early, late, after a successful solve}; each scenario must raise before any NLP reaches Opti.solve (counted by a spy), and the fault-free control scripts must solve",
+             ref="DESIGN.md section 4 C20", level='fault_enumeration'),
  'C09': dict(tech="TLC model checking of Lifecycle.tla + TLC-generated API histories replayed into rockit, live NLP compared with a freshly written OCP",
              text="(a) exact replay family over parameter kinds (global, per-interval, per-interval+final, 2x2 matrix-valued, horizon parameter): rows, parametric bounds, objective and sampled parameter values against the prediction computed with the values written in; (b) histories over 14 public operations (exhaustive to depth 3/4, random to depth 12/16) are generated by TLC; after every call the parameter vector of the live NLP must equal that of a fresh OCP with the specification's declaration (value set before or after transcription, last value wins, other data untouched)",
              ref="DESIGN.md section 4 C09"),
@@ -48,6 +60,9 @@ CLAIMS = {
 }
 NOTES = {
  'C02': "degrees with irrational nodes (radau d>=3, legendre d>=2) are not predicted numerically yet",
+ 'C08': "collocation degrees with irrational nodes and the convergence clause are not covered; DC probes are generic (not feasible), so the final sample of the last step is excluded there",
+ 'C15': "DirectCollocation degree 4 (irrational nodes) is not predicted numerically; tightness as M grows is not decided",
+ 'C16': "second derivatives only of pure time expressions (der of an expression that mentions controls is documented to raise)",
  'C06': "DensityGrid/DenseEdgesGrid node positions are not predicted (no closed form in rationals)",
  'C10': "array guesses for DirectCollocation helper states are not predicted (conservative reading, DESIGN 9.2)",
 }
@@ -59,7 +74,7 @@ for p in props:
         checks.append({"property_id": p, "quick_cmd": "./check %s --tier quick" % p, "thorough_cmd": "./check %s --tier thorough" % p,
                        "evidence_file": "/verif/evidence/%s.json" % p, "replay_cmd_template": "./check %s --replay {path}" % p,
                        "engine": "tlc+replay", "technique": c['tech'],
-                       "level_claimed": {"category": "model_checking", "text": c['text'] + ((' -- ' + NOTES[p]) if p in NOTES else ''), "design_ref": c['ref']},
+                       "level_claimed": {"category": c.get("level", "model_checking"), "text": c['text'] + ((' -- ' + NOTES[p]) if p in NOTES else ''), "design_ref": c['ref']},
                        "level_note": TB})
 m = {"version": 1, "setup_cmd": "./setup.sh",
      "hooks": {"guard": "ROCKIT_VERIF", "enable": "no source hooks: checks import rockit from /repo's working tree (sys.path) and observe through the public API and ocp._method.opti",
